@@ -15,7 +15,7 @@
      Kills prefix a b                b is a with some log files marked deleted, nothing else changed
      a deleted file stays in the list with f_alive = false; the directory listing is filter f_alive. *)
 From Coq Require Import Sorting.Sorted.
-From SV Require Import Base.Bytes Model.LogFile Proofs.LogFileP Proofs.LogFileW Proofs.LogFileS Proofs.LogFileR.
+From SV Require Import Base.Bytes Model.LogFile Proofs.LogFileP Proofs.LogFileW Proofs.LogFileS Proofs.LogFileO Proofs.LogFileR.
 
 (* C19.1  len_is_sum -- PrefixFileSet.len equals the sum of the lengths in the heap after every
    sequence of API calls (debug build: whenever the call returns), ... *)
@@ -193,6 +193,52 @@ Example c19_equal_mtimes_sorted_nonvacuous :
   heap_leb fix18 (entry_of fB) (entry_of fA) = false /\ heap_leb post_fix (entry_of fB) (entry_of fA) = true.
 Proof. exact equal_mtimes_sorted. Qed.
 
+(* C19.10  the oracles of the correspondence check are the boolean form of the theorems.
+   c19_oracle_set_sound: on every state in which heap and directory agree (the writer's states;
+   the state after PrefixFileSet::new, c19_set_new_good; and, by the conclusion, every state reached
+   from these by deleting calls) each deleting call of the model satisfies oracle_set_step, where
+   [del] are the names that left the heap = the names of the log files that left the directory. *)
+Theorem c19_oracle_set_sound :
+  forall prefix b18 m rest tl st o fs' st',
+  Good prefix rest tl st ->
+  (o = ODelOldest \/ (exists now dur, o = ODelOlder now dur) \/ (exists mx, o = OWhileOver mx)) ->
+  set_step (post b18) m prefix (rest ++ tl, st) o = ROk (fs', st') ->
+  exists del rest',
+    fs' = rest' ++ tl /\ Good prefix rest' tl st' /\ Kills prefix rest rest' /\
+    entries st' = keep_entries del (entries st) /\
+    oracle_set_step (post b18) (entries st) o del = true.
+Proof. exact oracle_set_sound. Qed.
+
+Theorem c19_set_new_good :
+  forall prefix b18 m fs ts st,
+  NoDup (live_names fs) -> total_size post_fix prefix fs < two64 ->
+  set_new (post b18) m prefix fs ts = ROk st -> Good prefix fs [] st.
+Proof. exact set_new_good. Qed.
+
+(* c19_oracle_writer_sound: at every event boundary of every history the model's observation (the
+   contents of the live files the writer created, in order; the bytes in surviving older log
+   files; the set's entries) satisfies the clauses ow_current_last, ow_file_sizes, ow_total and
+   ow_age of the writer oracle.
+   FULL STATEMENT (not proved, hence the name): additionally
+     ow_suffix (history_lines (rs ++ [r])) (obs_of created) = true,
+   i.e. oracle_writer .. = true as a whole.
+   GAP: ow_suffix is the boolean form of survivors_are_suffix for whole histories, which is proved
+   for one run only (c19_survivors_are_suffix_partial); what IS proved for all histories is that the
+   live files are a sub-sequence of the files holding exactly the accepted lines
+   (c19_every_event_once_in_order). *)
+Theorem c19_oracle_writer_sound_partial :
+  forall prefix b18 m fs0 MW WA rs r, hist_ok prefix fs0 MW WA (rs ++ [r]) ->
+  exists fsA w old created,
+    run_history (post b18) m prefix fs0 rs = ROk fsA /\ run_one (post b18) m prefix fsA r = ROk w /\
+    w_fs w = old ++ created /\ length old = length fs0 /\
+    ow_current_last (history_lines (rs ++ [r])) (obs_of created) = true /\
+    ow_file_sizes MW (obs_of created) = true /\
+    ow_total (max_write_bytes (r_cfg r)) (max_keep_bytes (r_cfg r)) (history_lines (rs ++ [r]))
+             (total_size post_fix prefix old) (obs_of created) = true /\
+    (r_events r <> [] ->
+     ow_age (max_keep_age (r_cfg r)) (l_time (last (r_events r) (r_start r))) (entries (w_set w)) = true).
+Proof. exact oracle_writer_sound. Qed.
+
 (* non-vacuity: the hypotheses hold for a concrete history with a pre-existing file *)
 Example c19_nonvacuous :
   hist_ok pfx [old_file] 65536 86400000 h_uncounted /\
@@ -227,3 +273,6 @@ Print Assumptions c19_budget_underflow_refuted.
 Print Assumptions c19_survivors_are_suffix_partial.
 Print Assumptions c19_equal_mtimes_hole_refuted.
 Print Assumptions c19_equal_mtimes_fixed.
+Print Assumptions c19_oracle_set_sound.
+Print Assumptions c19_set_new_good.
+Print Assumptions c19_oracle_writer_sound_partial.
